@@ -11,6 +11,15 @@ def run(ck):
     # more sequences -> more internal nodes, caterpillar/balanced shapes come from the families
     for c in wc.make_cases(ck, 40 if ck.tier == 'quick' else 400, small=False):
         cases.append(c)
+    # groups of >= 64 members in alignments of >= 512 columns, thread counts that do not divide the group sizes
+    import gen
+    for k in range(2 if ck.tier == 'quick' else 12):
+        nseq = ck.rng.choice([70, 75, 99]); L = ck.rng.range(530, 600)
+        alpha = gen.DNA if k % 2 == 0 else gen.PROT
+        root = gen.rand_seq(ck.rng, alpha, L)
+        seqs = [gen.mutate(ck.rng, root, alpha, 6, 3) + ('WKW' if k % 2 else '') for _ in range(nseq)]
+        cases.append({'kind': 'dna' if k % 2 == 0 else 'protein', 'family': 'large-groups', 'seqs': seqs, 'type': 5, 'pens': [gen.NG] * 3, 'threads': ck.rng.choice([3, 4, 7])})
+        ck.count('family:large-groups (>= 64 members, >= 512 columns)')
     ck.rule = ('end-to-end runs with the NODE_DONE hook: at completion of every internal node the member rows are snapshotted; model merge_step '
                'replayed per merge on the observed ops and compared with every snapshot; extracted subalignment_b (strip of the final projection = snapshot) '
                'evaluated on the implementation data for every node; threads 1..16. Non-trivial = run with >= 2 internal nodes; distinct by input+settings')
